@@ -210,3 +210,32 @@ def torch_pickles(ctx, n):
                 break
             yield f"torch-legacy{k}-" + label, data[pos:end]
             pos, k = end, k + 1
+
+
+def multiplicity_programs():
+    """The identical call performed two and three times through every call-making opcode (an
+    interpreter that de-duplicates 'the same' call, persistent id or import loses executions)."""
+    A = asm
+    g = A.GLOBAL
+    hit = g("vp_sink", "hit")
+    calls = {
+        "REDUCE": (hit, A.MARK, A.SBU("x"), A.TUPLE, A.REDUCE),
+        "REDUCE-noargs": (hit, A.EMPTY_TUPLE, A.REDUCE),
+        "OBJ": (A.MARK, hit, A.SBU("x"), A.OBJ),
+        "INST": (A.MARK, A.SBU("x"), A.INST("vp_sink", "K")),
+        "NEWOBJ": (g("vp_sink", "K"), A.EMPTY_TUPLE, A.NEWOBJ),
+        "NEWOBJ_EX": (g("vp_sink", "K"), A.EMPTY_TUPLE, A.EMPTY_DICT, A.NEWOBJ_EX),
+        "BINPERSID": (A.BININT1(7), A.BINPERSID),
+        "BINPERSID-tuple": (A.SBU("storage"), A.BININT1(0), A.TUPLE2, A.BINPERSID),
+        "BUILD": (hit, A.EMPTY_TUPLE, A.REDUCE, A.EMPTY_DICT, A.SBU("a"), A.BININT1(1), A.SETITEM, A.BUILD),
+        "GLOBAL-only": (hit,),
+        "STACK_GLOBAL-only": (A.SBU("vp_sink"), A.SBU("hit"), A.STACK_GLOBAL),
+    }
+    out = []
+    for name, c in calls.items():
+        for n in (2, 3):
+            out.append((f"mult{n}-{name}-pop", c + (A.POP,) * 1 + (c + (A.POP,)) * (n - 2) + c + (A.STOP,)))
+            tup = {2: (A.TUPLE2,), 3: (A.TUPLE3,)}[n]
+            out.append((f"mult{n}-{name}-tuple", c * n + tup + (A.STOP,)))
+            out.append((f"mult{n}-{name}-list", (A.EMPTY_LIST,) + sum(((c + (A.APPEND,)) for _ in range(n)), ()) + (A.STOP,)))
+    return out
